@@ -10,7 +10,7 @@ from .. import refcmd, refpdu
 from ..common import Violation, HarnessError, hyp_search, parallel, lib_frame
 
 LEVEL = 'exploration'
-SOURCES = ('bytes', 'bytesio', 'file')
+SOURCES = ('bytes', 'bytesio', 'file', 'offset', 'gzip')
 PCIDS = [1, 2, 3, 4, 5, 63, 64, 127, 128, 129, 200, 253, 254, 255]
 
 
@@ -260,7 +260,7 @@ def run(ctx):
         raise HarnessError('reference self-test: %s' % exc)
     ctx.rule = ('grid: every maximum PDU length M in the range x every data length within +-2 of k*(M-6), '
                 'k=0..4, plus 1 (message class and context id rotated), each through bytes / BytesIO / real '
-                'file and through DIMSEMessage.encode and Association.send; 2^k boundaries up to 2^32-1; all '
+                'file / real file positioned behind a header / gzip file object and through DIMSEMessage.encode and Association.send; 2^k boundaries up to 2^32-1; all '
                 '23 classes; Hypothesis-random messages; several generators consumed alternately; non-trivial = >=2 data fragments or data length '
                 'within +-2 of a multiple of the fragment size; distinct by (part, class, M, L)')
     ctx.assumptions = ['several PDVs per PDU would be accepted', 'M < 7 outside the stated domain',
